@@ -601,6 +601,12 @@ func (b *builder) addFixed() {
 				{Name: "Each", Params: []Param{{"fn", &T{Kind: KFunc, Params: []*T{k, e}, Results: []*T{bl}}}}}}})
 	}
 	for _, d := range t.Deps {
+		if d.AltAlias != "" {
+			mk("FxTwoNamesA", Method{Name: "Use", Params: []Param{{"g", pkgT(d, d.Struct)}}, Results: []Param{{"", er}}})
+			t.Ifaces = append(t.Ifaces, &Iface{Name: "FxTwoNamesB", File: 1, Exportable: true, Tags: []string{"fixed"},
+				Methods: []Method{{Name: "Make", Results: []Param{{"", ptr(pkgT(d, d.Struct))}}}}})
+			t.FixedRequests = append(t.FixedRequests, []string{"FxTwoNamesA", "FxTwoNamesB"}, []string{"FxTwoNamesB", "FxTwoNamesA"})
+		}
 		if d.Fixed {
 			mk("FxAliasSame",
 				Method{Name: "Use", Params: []Param{{"w", pkgT(d, d.Struct)}}, Results: []Param{{"", er}}},
@@ -741,6 +747,24 @@ func (b *builder) addFixed() {
 		Method{Name: "At", Params: []Param{{"", local("Time")}, {"", pkgT(tm, "Time")}}},
 		Method{Name: "Handle", Params: []Param{{"", local("Context")}, {"", pkgT(cx, "Context")}}, Results: []Param{{"", er}}},
 		Method{Name: "Later", Params: []Param{{"", pkgT(tm, "Duration")}, {"", ptr(local("Time"))}}})
+	if b.hz.UnionNamedTerm {
+		// inline constraints whose only term is ~ over a composite type that mentions another package
+		sT, mT := &T{Kind: KTParam, Name: "S"}, &T{Kind: KTParam, Name: "M"}
+		durs := slice(pkgT(tm, "Duration"))
+		var vals *T
+		if len(t.Deps) > 0 {
+			vals = &T{Kind: KMap, Key: str, Elem: pkgT(t.Deps[0], t.Deps[0].Struct)}
+		} else {
+			vals = &T{Kind: KMap, Key: str, Elem: pkgT(urlD, "URL")}
+		}
+		t.Ifaces = append(t.Ifaces, &Iface{Name: "FxTilde", File: file, Exportable: true, NeedsSkipEnsure: true, Tags: []string{"fixed"},
+			TParams: []TParam{
+				{Name: "S", CKind: "tildeComposite", Constraint: &T{Kind: KIface, Embeds: []*T{{Kind: KTilde, Elem: durs}}}, Arg: durs},
+				{Name: "M", CKind: "tildeComposite", Constraint: &T{Kind: KIface, Embeds: []*T{{Kind: KTilde, Elem: vals}}}, Arg: vals}},
+			Methods: []Method{
+				{Name: "Window", Params: []Param{{"s", sT}}, Results: []Param{{"", mT}}},
+				{Name: "Count", Params: []Param{{"m", mT}}, Results: []Param{{"", in}}}}})
+	}
 	mapT := &T{Kind: KMap, Key: str, Elem: in}
 	mk("FxCatalog",
 		Method{Name: "Index", Results: []Param{{"", mapT}}},
@@ -1038,7 +1062,18 @@ func NewMatrixTree(kind string, hz Hazards) *Tree {
 			ls := t.Deps[len(t.Deps)-1]
 			t.Ifaces = append(t.Ifaces, &Iface{Name: "StSync", File: 1, Exportable: true, Tags: []string{"matrix"}, Methods: []Method{{Name: "Guard", Params: []Param{{"m", pkgT(ls, "Thing")}}, Results: []Param{{"", er}}}}})
 		}
+		if kind == "stale" {
+			// a/client registered first (embedded Use), b/client second (embedded Use2, both re-aliased), then a parameter
+			// spelled exactly like the alias the FIRST package received, typed from that package
+			t.Ifaces = append(t.Ifaces,
+				&Iface{Name: "StB1", File: 1, Exportable: true, Tags: []string{"matrix"}, Methods: []Method{{Name: "Use2", Params: []Param{{"c", pkgT(cb, "Thing")}}}}},
+				&Iface{Name: "StZ", File: 0, Exportable: true, Tags: []string{"matrix"}, Embeds: []*T{local("StA"), local("StB1")},
+					Methods: []Method{{Name: "Zuse", Params: []Param{{"aclient", pkgT(ca, "Thing")}, {"retries", basic("int")}}}}})
+		}
 		t.FixedRequests = [][]string{{"StA", "StB"}, {"StB", "StA"}, {"StC", "StB"}, {"StA", "StC", "StB"}, {"StLogA", "StLogB"}, {"StLogB", "StLogA"}, {"StGen", "StB"}, {"StB", "StGen"}, {"StSync"}, {"StSync", "StA"}, {"StVar", "StB"}, {"StB", "StVar"}}
+		if kind == "stale" {
+			t.FixedRequests = append(t.FixedRequests, []string{"StZ"}, []string{"StZ", "StA"})
+		}
 		if kind == "stale-regen" {
 			// regeneration corpus: without the parameters named like the re-aliased package (KF-regeneration-alias-feedback)
 			var keep []*Iface
